@@ -3922,6 +3922,14 @@ func (a *Association) popPendingDataChunksToSend( //nolint:cyclop,gocognit
 				addBytes := int(commonHeaderSize) + chunkBytes
 
 				if addBytes <= int(a.MTU()) && a.tlrAllowSendLocked(budgetScaled, consumed, addBytes) {
+					// The probe uses up peer receive window like any other chunk. Without
+					// this, further chunks are sent on top of the probe as if the window
+					// advertised by the peer were still untouched.
+					if dataLen := uint32(len(c.userData)); dataLen >= a.RWND() { //nolint:gosec // G115
+						a.setRWND(0)
+					} else {
+						a.setRWND(a.RWND() - dataLen)
+					}
 					a.movePendingDataChunkToInflightQueue(c)
 					chunks = append(chunks, c)
 				}
